@@ -17,6 +17,7 @@ mod model;
 mod props;
 mod rng;
 mod sched;
+mod serial;
 
 use case::{Case, Replay};
 use gen::Tier;
@@ -39,6 +40,9 @@ fn install_panic_hook() {
             .cloned()
             .or_else(|| info.payload().downcast_ref::<&str>().map(|s| s.to_string()))
             .unwrap_or_else(|| "panic".to_string());
+        if std::env::var_os("FJSIM_DEBUG").is_some() {
+            eprintln!("panic at {loc}: {msg}");
+        }
         *LAST_PANIC.lock().unwrap() = Some((loc, msg));
     }));
 }
@@ -148,6 +152,13 @@ fn cmd_run(args: &[String]) -> i32 {
         }
         let cs = case_seed(seed, &prop, i);
         let case = props::gen_case(&prop, tier, cs);
+        if let Some(p) = &out {
+            // progress marker: lets the driver attribute a process abort to this case
+            interpose::bypass(|| std::fs::write(format!("{p}.cur"), format!("{i}")).ok());
+            if cases % 20 == 0 {
+                write_summary(&out, &prop, seed, from, to, stride, cases, evaluations, &shapes, &stats, &classes, &samples, &hashes, &violations, &harness_errors, rechecks, skipped, Some(i), start.elapsed().as_secs_f64(), false);
+            }
+        }
         let o = run_one(&case, &format!("c{i}"));
         cases += 1;
         evaluations += o.evals;
@@ -192,6 +203,17 @@ fn cmd_run(args: &[String]) -> i32 {
         }
     }
     fsutil::remove_tree(&fsutil::scratch_root());
+    write_summary(&out, &prop, seed, from, to, stride, cases, evaluations, &shapes, &stats, &classes, &samples, &hashes, &violations, &harness_errors, rechecks, skipped, stopped_at, start.elapsed().as_secs_f64(), true);
+    0
+}
+
+#[allow(clippy::too_many_arguments)]
+fn write_summary(
+    out: &Option<String>, prop: &str, seed: u64, from: u64, to: u64, stride: u64, cases: u64, evaluations: u64,
+    shapes: &BTreeSet<u64>, stats: &exec::Stats, classes: &BTreeMap<String, u64>, samples: &[serde_json::Value],
+    hashes: &[(u64, u64)], violations: &[serde_json::Value], harness_errors: &[serde_json::Value],
+    rechecks: u64, skipped: u64, stopped_at: Option<u64>, wall: f64, complete: bool,
+) {
     let summary = json!({
         "prop": prop,
         "seed": seed,
@@ -210,14 +232,24 @@ fn cmd_run(args: &[String]) -> i32 {
         "rechecks": rechecks,
         "skipped": skipped,
         "stopped_at": stopped_at,
-        "wall_s": start.elapsed().as_secs_f64(),
+        "wall_s": wall,
+        "complete": complete,
     });
     let text = serde_json::to_string(&summary).unwrap();
     match out {
-        Some(p) => std::fs::write(p, text).unwrap(),
-        None => println!("{text}"),
+        Some(p) => {
+            let tmp = format!("{p}.tmp");
+            interpose::bypass(|| {
+                std::fs::write(&tmp, text).unwrap();
+                std::fs::rename(&tmp, p).unwrap();
+            });
+        }
+        None => {
+            if complete {
+                println!("{text}");
+            }
+        }
     }
-    0
 }
 
 fn cmd_replay(args: &[String]) -> i32 {
